@@ -26,14 +26,17 @@ type histResult struct {
 	w     *World
 	seed  int64
 	float int64
+	chain string
 }
 
-func runHistory(prop string, seed int64, prm [4]uint64, float int64, n int, g *Gen, script []Op, rep *lib.Report, hid string) histResult {
+func runHistory(prop, chain string, seed int64, prm [4]uint64, float int64, n int, g *Gen, script []Op, rep *lib.Report, hid string) histResult {
+	setChain(chain)
+	rep.Count("chain=" + chainName)
 	w := NewWorld(seed, prm, float)
 	mon := NewMonitor(w)
 	prev := w.snapshot()
 	var res histResult
-	res.w, res.seed, res.float = w, seed, float
+	res.w, res.seed, res.float, res.chain = w, seed, float, chainName
 	changed := 0
 	for i := 0; i < n; i++ {
 		var op Op
@@ -127,7 +130,7 @@ func main() {
 				f.what = fmt.Sprintf("%s (%d occurrences in this history)", f.what, n)
 			}
 			seenSig[f.sig] = -1
-			rep.Fail(lib.Failure{Kind: "monitor", What: f.what, Sig: f.sig, Replay: map[string]interface{}{"history": hid, "prop": prop, "chain_seed": h.seed,
+			rep.Fail(lib.Failure{Kind: "monitor", What: f.what, Sig: f.sig, Replay: map[string]interface{}{"history": hid, "prop": prop, "chain_seed": h.seed, "chain": h.chain,
 				"module_float": h.float, "params": h.w.params0, "ops": h.ops}})
 		}
 		if len(h.ops) > 0 {
@@ -140,7 +143,7 @@ func main() {
 	if dir := os.Getenv("VERIF_DUMP_SCRIPTS"); dir != "" {
 		for i, sc := range scripted(prop) {
 			b, _ := json.MarshalIndent(map[string]interface{}{"property": prop, "kind": "failing-input", "harness": "c05",
-				"replay": map[string]interface{}{"history": fmt.Sprintf("script-%d", i), "prop": prop, "chain_seed": seed + int64(i),
+				"replay": map[string]interface{}{"history": fmt.Sprintf("script-%d", i), "prop": prop, "chain_seed": seed + int64(i), "chain": sc.chain,
 					"module_float": sc.float, "params": sc.prm, "ops": sc.ops}}, "", " ")
 			lib.Must(os.WriteFile(fmt.Sprintf("%s/%s-script-%d.json", dir, prop, i), b, 0o644))
 		}
@@ -149,7 +152,7 @@ func main() {
 	// scripted histories first: the witnesses of the Coq development replayed on the real application
 	for i, sc := range scripted(prop) {
 		hid := fmt.Sprintf("script-%d", i)
-		record(runHistory(prop, seed+int64(i), sc.prm, sc.float, len(sc.ops), nil, sc.ops, rep, hid), hid)
+		record(runHistory(prop, sc.chain, seed+int64(i), sc.prm, sc.float, len(sc.ops), nil, sc.ops, rep, hid), hid)
 	}
 	for i := 0; i < nHist; i++ {
 		g := &Gen{r: r, prop: prop, endBad: r.Chance(6)}
@@ -163,7 +166,13 @@ func main() {
 			float = 0
 		}
 		hid := fmt.Sprintf("h%d", i)
-		record(runHistory(prop, seed*1000+int64(i), prm, float, nOps, g, nil, rep, hid), hid)
+		// every third history runs on the tron module (base58 contract / external addresses); by index, so that the
+		// operation stream of the other histories does not depend on it
+		chain := "eth"
+		if i%3 == 2 {
+			chain = "tron"
+		}
+		record(runHistory(prop, chain, seed*1000+int64(i), prm, float, nOps, g, nil, rep, hid), hid)
 	}
 	lib.WriteCases("Cases_"+prop+".v", []string{"gen.Gen_TimeoutRules", "model.M_Pool", "model.M_PoolCorr"}, "pool_case", items, "pool_mismatch")
 	rep.Write()
@@ -180,6 +189,7 @@ type script struct {
 	prm   [4]uint64
 	float int64
 	ops   []Op
+	chain string // "" = eth
 }
 
 // scripted: deterministic histories — the witnesses used by the Coq files, replayed on the real code.
@@ -188,7 +198,7 @@ func scripted(prop string) []script {
 	// (1) the C06 bridge-call witness: call with timeout T; all oracles observe result(success) at T-1, nobody
 	// executes it; any event at height >= T; then ExecuteClaim.
 	// params {60000,7000,1_200_000,3_600_001}: observed 1000 at the call's block => T = 1000 + 3 = 1003
-	out = append(out, script{paramSets[2], 100000, []Op{
+	out = append(out, script{prm: paramSets[2], float: 100000, ops: []Op{
 		{Kind: "Observe", H: 1000},
 		{Kind: "BridgeCall", Sender: 0, Refund: 1, Coins: [][2]int64{{0, 50}, {1, 60}}, To: 2, Data: []byte{0xab, 0xcd}},
 		{Kind: "ObserveResult", Nonce: 1, Success: true, H: 1002},
@@ -196,7 +206,7 @@ func scripted(prop string) []script {
 		{Kind: "ExecResult", E: 2},
 	}})
 	// (2) same, but the result is executed before the next event: no refund, the later event finds nothing
-	out = append(out, script{paramSets[2], 100000, []Op{
+	out = append(out, script{prm: paramSets[2], float: 100000, ops: []Op{
 		{Kind: "Observe", H: 1000},
 		{Kind: "BridgeCall", Sender: 0, Refund: 1, Coins: [][2]int64{{0, 50}, {1, 60}}, To: 2, Data: []byte{0xab, 0xcd}},
 		{Kind: "ObserveResult", Nonce: 1, Success: true, H: 1002},
@@ -204,7 +214,7 @@ func scripted(prop string) []script {
 		{Kind: "Observe", H: 1003},
 	}})
 	// (3) batches: boundary T-1 (kept), T (kept: strict comparison), T+1 (cancelled); newer batch executed first
-	out = append(out, script{paramSets[2], 100000, []Op{
+	out = append(out, script{prm: paramSets[2], float: 100000, ops: []Op{
 		{Kind: "Send", Sender: 0, Dest: 1, Amount: 10, Fee: 5, Token: 0},
 		{Kind: "RequestBatch", Token: 0, Which: 1, FeeRcv: 0, MinFee: 1, Auth: true}, // refused: nothing observed yet
 		{Kind: "Observe", H: 500},
@@ -223,7 +233,7 @@ func scripted(prop string) []script {
 	// (5) time-outs are not monotone in the batch nonce: batch 1 is requested three blocks after the last event (projection
 	// runs ahead: T1 = 1000+3*70+600 = 1810), an event at 1001 resets the projection, the more profitable batch 2 gets
 	// T2 = 1001+70+600 = 1671; the event at 1700 may release batch 2 only; batch 1 must still be executable at 1750
-	out = append(out, script{[4]uint64{60000, 7000, 100, 3_600_001}, 100000, []Op{
+	out = append(out, script{prm: [4]uint64{60000, 7000, 100, 3_600_001}, float: 100000, ops: []Op{
 		{Kind: "Observe", H: 1000},
 		{Kind: "Send", Sender: 0, Dest: 1, Amount: 10, Fee: 5, Token: 1},
 		{Kind: "NextBlock"}, {Kind: "NextBlock"}, {Kind: "NextBlock"},
@@ -238,7 +248,7 @@ func scripted(prop string) []script {
 	}})
 	// (6) one of three oracles reports the event with another height (here: far beyond every time-out, as the
 	// threshold-crossing second voter): the observed height must be the one the other two agree on
-	out = append(out, script{paramSets[2], 100000, []Op{
+	out = append(out, script{prm: paramSets[2], float: 100000, ops: []Op{
 		{Kind: "Observe", H: 1000},
 		{Kind: "Send", Sender: 0, Dest: 1, Amount: 10, Fee: 5, Token: 0},
 		{Kind: "RequestBatch", Token: 0, Which: 1, FeeRcv: 0, MinFee: 1, Auth: true},
@@ -250,7 +260,7 @@ func scripted(prop string) []script {
 	// (7) bridge calls queued by the real bridgeCall precompile (no from-msg marker), refund address != sender:
 	// one settled by a failed result, one by its time-out (T = 1000+3 = 1003), one created by MsgBridgeCall for contrast;
 	// the refund address must receive FX in the bank / the registered coin as ERC-20 (as base coins for the msg call)
-	out = append(out, script{paramSets[2], 100000, []Op{
+	out = append(out, script{prm: paramSets[2], float: 100000, ops: []Op{
 		{Kind: "Observe", H: 1000},
 		{Kind: "BridgeCallP", Sender: 0, Refund: 1, Amount: 50, Coins: [][2]int64{{3, 60}}, To: 2, Data: []byte{1}},
 		{Kind: "BridgeCallP", Sender: 2, Refund: 0, Coins: [][2]int64{{3, 70}}, To: 1, Data: []byte{2}, Memo: []byte{9}},
@@ -262,7 +272,7 @@ func scripted(prop string) []script {
 	// (8) C05 only — finding C05-2: genesis export + import of the module restarts the three id counters and drops the
 	// outgoing bridge calls: new ids collide with live ones, a new batch overwrites a stored one
 	if prop == "C05" {
-		out = append(out, script{paramSets[1], 100000, []Op{
+		out = append(out, script{prm: paramSets[1], float: 100000, ops: []Op{
 			{Kind: "Observe", H: 1000},
 			{Kind: "Send", Sender: 0, Dest: 1, Amount: 10, Fee: 5, Token: 0},
 			{Kind: "Send", Sender: 1, Dest: 1, Amount: 11, Fee: 6, Token: 3},
@@ -291,7 +301,7 @@ func scripted(prop string) []script {
 	// (9) transfers started from the EVM through the real crossChain precompile: ERC-20 of the registered coin (outgoing
 	// relation, refund as ERC-20), FX as msg.value (no relation, refund in the bank), next to message-originated ones;
 	// cancel of each kind, fee increase on an EVM-originated one, execution of a batch holding one (relation deleted)
-	out = append(out, script{paramSets[1], 100000, []Op{
+	out = append(out, script{prm: paramSets[1], float: 100000, ops: []Op{
 		{Kind: "Observe", H: 1000},
 		{Kind: "SendP", Sender: 0, Dest: 1, Amount: 40, Fee: 5, Token: 3},
 		{Kind: "SendP", Sender: 1, Dest: 2, Amount: 30, Fee: 0, Token: 3},
@@ -311,7 +321,7 @@ func scripted(prop string) []script {
 	// (10) lifecycle: the module migration in the middle of a history with a live transfer, a batch whose time-out (1600) the
 	// PROJECTED height (1000 + 10 blocks * 70) has passed while the OBSERVED height (1000) has not, a bridge call; afterwards
 	// ids continue, the creator can cancel, the batch is still there and executable
-	out = append(out, script{[4]uint64{60000, 7000, 100, 3_600_001}, 100000, []Op{
+	out = append(out, script{prm: [4]uint64{60000, 7000, 100, 3_600_001}, float: 100000, ops: []Op{
 		{Kind: "Observe", H: 1000},
 		{Kind: "Send", Sender: 0, Dest: 1, Amount: 10, Fee: 5, Token: 0},
 		{Kind: "Send", Sender: 1, Dest: 2, Amount: 11, Fee: 6, Token: 3},
@@ -334,13 +344,13 @@ func scripted(prop string) []script {
 			bulk = append(bulk, Op{Kind: "BridgeCall", Sender: i % 3, Refund: (i + 1) % 3, Coins: [][2]int64{{0, 1}}, To: 0})
 		}
 		bulk = append(bulk, Op{Kind: "Observe", H: 1003}, Op{Kind: "Observe", H: 1004}, Op{Kind: "Observe", H: 1005})
-		out = append(out, script{paramSets[2], 100000, bulk})
+		out = append(out, script{prm: paramSets[2], float: 100000, ops: bulk})
 	}
 	// (12) uneven vote schedule: batch 1 (time-out 1600) is executed externally at 1599, the next external event is at 1601;
 	// oracle 1 mis-reports the height of the execution, oracle 2 is slow: oracles 0 and 1 have already reported the second
 	// event when oracle 2 completes the quorum of the first. The execution must be applied first (batch settled, transfer
 	// not back in the pool, creator cannot cancel), then the later event. Same for a bridge-call result at T-1.
-	out = append(out, script{paramSets[1], 100000, []Op{
+	out = append(out, script{prm: paramSets[1], float: 100000, ops: []Op{
 		{Kind: "Observe", H: 1000},
 		{Kind: "Send", Sender: 0, Dest: 1, Amount: 10, Fee: 5, Token: 0},
 		{Kind: "RequestBatch", Token: 0, Which: 1, FeeRcv: 0, MinFee: 1, Auth: true},
@@ -352,7 +362,7 @@ func scripted(prop string) []script {
 	// (13) the result of a bridge call arrives with an event nonce different from the call nonce, is executed, and a later
 	// event reaches the call's time-out: nothing may be refunded (call 1 settled by its result); an unrelated pending call
 	// whose nonce equals that event nonce (call 3, event 3) must keep its record
-	out = append(out, script{paramSets[2], 100000, []Op{
+	out = append(out, script{prm: paramSets[2], float: 100000, ops: []Op{
 		{Kind: "Observe", H: 1000},
 		{Kind: "BridgeCall", Sender: 0, Refund: 1, Coins: [][2]int64{{0, 50}}, To: 2, Data: []byte{1}},
 		{Kind: "Observe", H: 1000},
@@ -368,7 +378,7 @@ func scripted(prop string) []script {
 	// way) can never be refunded: the failure result cannot be executed, and the event that reaches the time-out cannot be
 	// observed at all (the time-out refund panics inside the oracles' claim), which blocks every later event of the module
 	if prop == "C05" {
-		out = append(out, script{paramSets[2], 100000, []Op{
+		out = append(out, script{prm: paramSets[2], float: 100000, ops: []Op{
 			{Kind: "Observe", H: 1000},
 			{Kind: "BridgeCallP", Sender: 0, Refund: 1, Coins: [][2]int64{{4, 60}}, To: 2, Data: []byte{1}},
 			{Kind: "ObserveResult", Nonce: 1, Success: false, H: 1001},
@@ -383,7 +393,7 @@ func scripted(prop string) []script {
 	// increaseBridgeFee (paid as ERC-20 / FX value), cancelSendToExternal and executeClaim through the precompile; the fee
 	// increase of the externally owned token leaves base coins locked in the erc20 module, out of which a later bridge-call
 	// refund of that token can be paid
-	out = append(out, script{paramSets[2], 100000, []Op{
+	out = append(out, script{prm: paramSets[2], float: 100000, ops: []Op{
 		{Kind: "Observe", H: 1000},
 		{Kind: "SendP", Sender: 0, Dest: 1, Amount: 40, Fee: 5, Token: 4},
 		{Kind: "SendP", Sender: 1, Dest: 2, Amount: 30, Fee: 2, Token: 3},
@@ -417,7 +427,33 @@ func scripted(prop string) []script {
 		Op{Kind: "RequestBatch", Token: 1, Which: 1, FeeRcv: 0, MinFee: 1, Auth: true},
 		Op{Kind: "BatchExecuted", Token: 1, Nonce: 2, H: 78},
 	)
-	out = append(out, script{paramSets[0], 100000, big})
+	out = append(out, script{prm: paramSets[0], float: 100000, ops: big})
+	// (16) the life of transfers of two bridged tokens with fee increases offered in every registered denomination: the
+	// transfer's own bridge denom (accepted), the bridge denom of ANOTHER registered token, FX, the base denom (all refused:
+	// a fee is raised in the transfer's own token only), then cancel / batch / execution. Run on the hex-address module
+	// and on tron (base58 contract strings), where every address comparison of the keeper sees non-hex strings.
+	two := []Op{
+		{Kind: "Observe", H: 1000},
+		{Kind: "Send", Sender: 0, Dest: 1, Amount: 10, Fee: 5, Token: 1},
+		{Kind: "Send", Sender: 1, Dest: 2, Amount: 20, Fee: 6, Token: 2},
+		{Kind: "Send", Sender: 2, Dest: 0, Amount: 30, Fee: 7, Token: 3},
+		{Kind: "IncreaseFee", ID: 1, Who: 0, Add: 3, Token: 1, Which: 1},
+		{Kind: "IncreaseFee", ID: 1, Who: 0, Add: 4, Token: 2, Which: 1},
+		{Kind: "IncreaseFee", ID: 2, Who: 2, Add: 2, Token: 1, Which: 1},
+		{Kind: "IncreaseFee", ID: 2, Who: 1, Add: 2, Token: 0, Which: 1},
+		{Kind: "IncreaseFee", ID: 3, Who: 2, Add: 2, Token: 4, Which: 1},
+		{Kind: "IncreaseFee", ID: 1, Who: 1, Add: 2, Token: 3, Which: 1},
+		{Kind: "IncreaseFee", ID: 2, Who: 1, Add: 2, Token: 2, Which: 0},
+		{Kind: "IncreaseFee", ID: 2, Who: 1, Add: 1, Token: 2, Which: 1},
+		{Kind: "IncreaseFeeP", ID: 3, Who: 0, Add: 2, Token: 4},
+		{Kind: "IncreaseFeeP", ID: 1, Who: 0, Add: 2, Token: 3},
+		{Kind: "IncreaseFeeP", ID: 3, Who: 1, Add: 2, Token: 3},
+		{Kind: "Cancel", ID: 1, Who: 0},
+		{Kind: "RequestBatch", Token: 2, Which: 1, FeeRcv: 0, MinFee: 1, Auth: true},
+		{Kind: "Cancel", ID: 3, Who: 2},
+		{Kind: "BatchExecuted", Token: 2, Nonce: 1, H: 1001},
+	}
+	out = append(out, script{prm: paramSets[2], float: 100000, ops: two}, script{prm: paramSets[2], float: 100000, ops: two, chain: "tron"})
 	return out
 }
 
@@ -433,6 +469,7 @@ func replay(defaultProp string) {
 		Replay struct {
 			Prop   string    `json:"prop"`
 			Seed   int64     `json:"chain_seed"`
+			Chain  string    `json:"chain"`
 			Float  int64     `json:"module_float"`
 			Params [4]uint64 `json:"params"`
 			Ops    []Op      `json:"ops"`
@@ -447,6 +484,7 @@ func replay(defaultProp string) {
 	if prop == "" {
 		prop = defaultProp
 	}
+	setChain(r.Chain)
 	w := NewWorld(r.Seed, r.Params, r.Float)
 	mon := NewMonitor(w)
 	prev := w.snapshot()
